@@ -445,6 +445,15 @@ func (r *Run) watchdog() {
 	}
 }
 
+// cpuSeconds: user + system CPU time of this process so far.
+func cpuSeconds() float64 {
+	var ru syscall.Rusage
+	if syscall.Getrusage(syscall.RUSAGE_SELF, &ru) != nil {
+		return 0
+	}
+	return round2(float64(ru.Utime.Nano()+ru.Stime.Nano()) / 1e9)
+}
+
 func round2(f float64) float64 { return float64(int64(f*100+0.5)) / 100 }
 
 func uniqCount(lists [][]uint64) int64 {
@@ -543,6 +552,8 @@ func (r *Run) Finish() int {
 		"phases":                        r.phases,
 		"bounds":                        r.Bounds,
 		"peak_heap_mib":                 atomic.LoadUint64(&peakHeap) >> 20,
+		"cpu_s":                         cpuSeconds(),
+		"budget":                        fmt.Sprintf("%.0f CPU-seconds (%.0f s x %d workers), wall cap %.0f s", r.cpuBudget.Seconds(), r.cpuBudget.Seconds()/float64(r.NWorkers), r.NWorkers, r.hardDeadline.Sub(r.Start).Seconds()),
 	}
 	if r.deadlineHit != "" {
 		cov["stopped_by_deadline_in"] = r.deadlineHit
